@@ -41,7 +41,10 @@ RULE = ("random rule systems of the engine generator (harness/rules.py: int/floa
         "raising formulas), each run under the plain configuration and 5 others drawn in rotation from {trace, disk, "
         "disk+priority variables, variables_to_drop, blacklist+opt_out, blacklist without opt_out, random combination, "
         "everything on}; streams: 'claimed' (ranked system, inputs first, then calculate/add/divide/get), 'spiral' "
-        "(self/mutual dependence), 'mutating' (delete_arrays, late set_input, raise switches toggled between requests); "
+        "(self/mutual dependence), 'mutating' (delete_arrays, late set_input, raise switches toggled between requests), "
+        "'threshold' (disk-capable configurations whose memory-occupation threshold is moved between requests, "
+        "set_input repeated on the same variable and stored period before/after the move, eternal variables given "
+        "dated periods); "
         "a case is non-trivial when a formula ran and at least one non-plain configuration skipped a store, used the "
         "disk or recorded a trace node with children; distinct by JSON text")
 TRUSTED = ["harness/rules.py: compiler from rule-system terms to real Variable subclasses (formulas call the public API)",
@@ -95,7 +98,7 @@ def cfg_family(rng, n):
 
 
 def gen_one(rng, k):
-    stream = "spiral" if k % 7 == 6 else ("mutating" if k % 7 == 3 else "claimed")
+    stream = {6: "spiral", 3: "mutating", 1: "threshold"}.get(k % 7, "claimed")
     case = rules.gen_case(rng, SPIRAL_PROFILE if stream == "spiral" else PROFILE)
     case.pop("cfg", None)
     sys, reqs = case["sys"], case["requests"]
@@ -131,11 +134,66 @@ def gen_one(rng, k):
         for pos, r in sorted(extra, key=lambda x: -x[0]):
             reqs.insert(pos, r)
     case["requests"] = reqs
+    if stream == "threshold":
+        return threshold_case(rng, case)
     fam = cfg_family(rng, n)
     # trace always; four others in rotation so that every member is used equally often
     picks = [0] + sorted({1 + (k + j * 2) % (len(fam) - 1) for j in range(4)})
     case["cfgs"] = [{}] + [fam[i] for i in picks]
     case["stream"] = stream
+    return case
+
+
+def threshold_case(rng, case):
+    """The memory-occupation threshold moves between requests (pseudo-request ["flip", pc]: sets
+    memory_config.max_memory_occupation_pc of configurations that have a memory_config; 1000 =
+    never to disk, 0 = always to disk; no effect on the plain run nor on the model), with set_input
+    repeated on the same (variable, stored period) before and after the move: eternal variables
+    given dated periods, dated variables; then calculations and get_array."""
+    sys, pop = case["sys"], case["pop"]
+    vs = sys["vars"]
+    n0 = len(vs)
+    # an eternal input and a monthly reader of it, appended (keeps the system ranked)
+    vs.append({"ent": "person", "type": rng.choice(["int", "float"]), "unit": "eternity", "end": None,
+               "formulas": [], "default": rng.choice([0, 3]), "neutral": False})
+    vs.append({"ent": "person", "type": "int", "unit": "month", "end": None, "default": 0, "neutral": False,
+               "formulas": [[[1, 1, 1], ["bin", "add", ["dep", n0, "same", "plain"], ["const", rng.randint(1, 9)]]]]})
+    sets = [r for r in case["requests"] if r[0] == "set"]
+    rest = [r for r in case["requests"] if r[0] != "set"]
+    year = rng.choice(rules.BASE_YEARS)
+    targets = [(n0, rules.gen_period(rng, rng.choice(["month", "year", "day"]), year=year))]
+    inputs = [i for i, v in enumerate(vs[:n0]) if not v["formulas"]]
+    for i in rng.sample(inputs, min(len(inputs), rng.randint(1, 2))):
+        u = vs[i]["unit"]
+        targets.append((i, rules.gen_period(rng, u if u != "eternity" else rng.choice(["month", "year"]), year=year)))
+    pc = rng.choice([1000, 1000, 0])
+    reqs = list(sets)
+    second = []
+    for i, p in targets:
+        v = vs[i]
+        reqs.append(["set", i, p, rules.input_values(rng, v, rules.count_for(pop, v))])
+        p2 = p
+        if v["unit"] == "eternity" and rng.random() < 0.5:
+            p2 = rules.gen_period(rng, rng.choice(["month", "year"]), year=year)   # same stored key
+        second.append(["set", i, p2, rules.input_values(rng, v, rules.count_for(pop, v))])
+    reqs.append(["flip", 0 if pc else 1000])
+    reqs += second
+    if rng.random() < 0.4:
+        reqs.append(["flip", rng.choice([0, 1000])])
+        i, p = rng.choice(targets)
+        reqs.append(["set", i, p, rules.input_values(rng, vs[i], rules.count_for(pop, vs[i]))])
+    for i, p in targets:
+        q = p if vs[i]["unit"] != "eternity" else rules.gen_period(rng, "month", year=year)
+        reqs.append([rng.choice(["calc", "get"]), i, q])
+    reqs.append(["calc", n0 + 1, rules.gen_period(rng, "month", year=year)])
+    reqs += rest
+    case["requests"] = reqs
+    n = len(vs)
+    case["cfgs"] = [{}, {"disk": True, "pc": pc}, {"disk": True, "pc": pc, "trace": True},
+                    {"disk": True, "pc": pc, "priority": _some(rng, n, 0.3)},
+                    {"drop": _some(rng, n0, 0.3), "pc": pc},
+                    {"disk": True, "pc": 1000 - pc if pc in (0, 1000) else 0}]
+    case["stream"] = "threshold"
     return case
 
 
@@ -221,6 +279,11 @@ def opt_ints(a):
 def ser_recorded(node):
     reads = []
     for r in node["reads"]:
+        if r["opt"] == "divide" and r["ret"] is not None:
+            # the model divides exactly (DESIGN section 4); a malformed DIVIDE dependency can be accepted
+            # by the code with an inexact quotient that a later `not`/comparison hides from the answers
+            if any(x != int(x) for x in numpy.asarray(r["ret"], dtype=numpy.float64).tolist() if x == x and abs(x) != float("inf")):
+                raise rules.Inexact("inexact DIVIDE inside a formula")
         reads.append({"v": r["v"], "pt": r["pt"], "opt": r["opt"],
                       "q": None if r["q"] is None else rules.period_key(r["q"]), "qj": r["q"],
                       "ret": None if r["ret"] is None else numpy.asarray(r["ret"], dtype=numpy.float64).tolist(),
@@ -258,12 +321,19 @@ def run_cfg(case, cfg):
     switches = set(sys.get("switches", []))
     tbs = rules.build_system(sys, switches)
     sim = rules.build_simulation(tbs, pop, cfg, sys)
+    if sim.memory_config is not None and "pc" in cfg:
+        sim.memory_config.max_memory_occupation_pc = cfg["pc"]
     rec = install_recorder(sim)
     reqs, extra = [], []
     try:
         for r in case["requests"]:
             try:
-                a = rules.do_request(sim, sys, switches, r)
+                if r[0] == "flip":
+                    if sim.memory_config is not None:
+                        sim.memory_config.max_memory_occupation_pc = r[1]
+                    a = None
+                else:
+                    a = rules.do_request(sim, sys, switches, r)
             except rules.Inexact:
                 raise
             except Exception as e:  # noqa: BLE001
@@ -313,11 +383,23 @@ def coq_case(case):
     cfgs = clist([f"({cbool(c.get('trace'))}, {clist([cbool(rules.nostore(c, i)) for i in range(n)])})"
                   for c in case["cfgs"]])
     return (f"(CCfg {rules.csys(case['sys'], None)} {rules.cpop(case['pop'])} "
-            f"{clist([rules.crequest(r) for r in case['requests']])} {cfgs})")
+            f"{clist([crequest(r) for r in case['requests']])} {cfgs})")
+
+
+def crequest(r):
+    # the threshold move has no counterpart in the model: switching off a switch that no formula
+    # consults leaves the rule system as it is and answers None
+    return "RSwitch 99%nat false" if r[0] == "flip" else rules.crequest(r)
 
 
 def final_cache(run):
-    return run["reqs"][-1][2] if run["reqs"] else []
+    """holders' content after the last request; a key present in both the memory and the disk
+    store of a holder is listed twice by get_known_periods (the memory value is the one read)"""
+    out = []
+    for e in (run["reqs"][-1][2] if run["reqs"] else []):
+        if not out or out[-1][0] != e[0]:
+            out.append(e)
+    return out
 
 
 def obs_for_coq(case, obs):
@@ -518,7 +600,13 @@ def oracle(case, obs):
     if claimed_invariance(case):
         for run in runs[1:]:
             for k, r in enumerate(case["requests"]):
-                if r[0] not in ("calc", "add", "div"):
+                # get_array of an input that was set for that stored period does not depend on the
+                # configuration either (set_input stores whatever the settings)
+                pure_input = (r[0] == "get" and r[1] < nvars and not case["sys"]["vars"][r[1]]["formulas"]
+                              and any(q[0] == "set" and q[1] == r[1]
+                                      and (q[2] == r[2] or case["sys"]["vars"][r[1]]["unit"] == "eternity")
+                                      for q in case["requests"][:k]))
+                if r[0] not in ("calc", "add", "div") and not pure_input:
                     continue
                 a, b = plain["reqs"][k][0], run["reqs"][k][0]
                 if not same_answer(a, b):
